@@ -36,7 +36,9 @@ def draw_plan(rng: random.Random, prop: str = "C17", tier="quick", design_fracti
     order = list(gen.SETTERS)
     rng.shuffle(order)
     cheap = cfg["geometry"]["method"] in ("NEARSQUARE", "RECTANGLE") and cfg["simulation"]["num_months"] <= 36
+    decoys = [n for n in gen.SETTERS if rng.random() < 0.2]
     return {"engine": "E2R", "property": prop, "cfg": cfg, "order": order, "double_write": rng.random() < 0.3,
+            "decoys": decoys, "cfg_decoy2": gen.draw_cfg(rng) if decoys else None, "pre_broken": rng.random() < 0.25,
             "design": cheap and rng.random() < design_fraction * 3.5,
             "cfg_decoy": gen.draw_cfg(rng, methods=["BIRECTANGLECONSTRAINED"]) if rng.random() < 0.5 else None}
 
@@ -110,7 +112,28 @@ def run_plan(plan: dict) -> dict:
         rootp = Path(root)
         shim = seams.FileShim(root, [])
         with shim:
-            mgr1 = gen.build_manager(cfg, order=plan["order"])
+            if plan.get("pre_broken"):
+                # a structurally broken file is validated first in this process (its exception is caught by the caller)
+                fb = rootp / "broken.json"
+                fb.write_text(json.dumps({"version": "x", "fluid": {"concentration_percent": "a"}, "grout": {}, "pipe": {}}))
+                try:
+                    validate_input_file(fb)
+                except Exception:  # noqa: BLE001
+                    pass
+                try:
+                    _run_manager_from_cli_worker(fb, rootp / "out_broken")
+                except Exception:  # noqa: BLE001
+                    pass
+                bump("fault:structurally_broken_file_validated_first")
+            decoys = []
+            for n in plan.get("decoys") or []:
+                d2 = plan["cfg_decoy2"]
+                if n == "pipe" and d2["pipe"]["arrangement"] != cfg["pipe"]["arrangement"]:
+                    pass  # a decoy pipe of another arrangement is the interesting case: keep it
+                decoys.append((n, d2))
+            mgr1 = gen.build_manager(cfg, order=plan["order"], decoys=decoys)
+            if decoys:
+                bump("probe:manager_previously_configured_otherwise")
             f1 = rootp / "f1.json"
             if plan["double_write"] and plan.get("cfg_decoy"):
                 decoy = gen.build_manager(plan["cfg_decoy"])
